@@ -11,7 +11,7 @@
 static uint64_t hs;
 static uint32_t hr(uint32_t n) { hs ^= hs << 13; hs ^= hs >> 7; hs ^= hs << 17; return n ? (uint32_t)((hs >> 11) % n) : 0; }
 
-#define HOSTILE_CLASSES 13
+#define HOSTILE_CLASSES 14
 int hostile_classes(void) { return HOSTILE_CLASSES; }
 
 /* pick the k-th instruction of function f; returns its offset in mod->code or -1 */
@@ -104,6 +104,27 @@ bool hostile_make(const uint8_t *d, size_t n, uint32_t mseed, Buf *out, char *de
         else if (k == 6) { fn->code_offset = mod->code_size; fn->code_length = 0; }
         else { fn->code_offset = mod->code_size + 1; fn->code_length = 0xFFFFFFFFu - mod->code_size; }
         snprintf(desc, dsz, "fn[%u].code_offset=0x%x code_length=0x%x", f, fn->code_offset, fn->code_length); break; }
+    case 13: {   /* a length prefix INSIDE the string pool (or the import table) set so that position + length wraps or just overruns; checksum recomputed */
+        blob = nvm_serialize(mod, &bsz);
+        if (!blob || bsz < NVM_HEADER_SIZE + NVM_SECTION_ENTRY_SIZE) goto fail;
+        raw = true;
+        uint32_t nsec = blob[16] | (uint32_t)blob[17] << 8; bool done = false;
+        for (uint32_t s = 0; s < nsec && !done; s++) {
+            size_t e = NVM_HEADER_SIZE + (size_t)s * NVM_SECTION_ENTRY_SIZE; if (e + 12 > bsz) break;
+            uint32_t ty, so, sz; memcpy(&ty, blob + e, 4); memcpy(&so, blob + e + 4, 4); memcpy(&sz, blob + e + 8, 4);
+            if ((ty & 0xFFFF) != NVM_SECTION_STRINGS || (size_t)so + sz > bsz || sz < 4) continue;
+            /* walk to the k-th prefix */
+            uint32_t pos = 0, k = hr(4), at = 0; 
+            for (uint32_t q = 0; pos + 4 <= sz; q++) { uint32_t l; memcpy(&l, blob + so + pos, 4); at = pos; if (q == k || l > sz - pos - 4) break; pos += 4 + l; }
+            uint32_t after = at + 4;
+            uint32_t v[] = { 0xFFFFFFFFu, 0xFFFFFFFFu - after + 1, 0xFFFFFFFFu - after + 1 + (sz - after), 0xFFFFFFF0u, 0x80000000u, sz - after + 1, 0u - after };
+            uint32_t x = v[hr(7)];
+            memcpy(blob + so + at, &x, 4);
+            snprintf(desc, dsz, "string_pool+%u: length prefix=0x%x (section size %u)", at, x, sz); done = true;
+        }
+        if (!done) { free(blob); goto fail; }
+        fix_crc(blob, bsz);
+        break; }
     case 10: case 11: {   /* raw patch of the section directory / header fields, checksum recomputed */
         blob = nvm_serialize(mod, &bsz);
         if (!blob || bsz < NVM_HEADER_SIZE + NVM_SECTION_ENTRY_SIZE) goto fail;
